@@ -53,6 +53,8 @@ def scenario(spec: dict):
             os.makedirs(d, exist_ok=True)
             with open(dest, 'wb') as f:
                 f.write(OLD)
+            if spec.get('readonly'):
+                os.chmod(dest, 0o444)        # a read-only destination is still replaced by a rename (directory permission)
         if spec.get('stale'):
             os.makedirs(d, exist_ok=True)
             with open(os.path.join(d, 'tmp_1'), 'wb') as f:
@@ -521,6 +523,8 @@ def scenario_list(quick: bool) -> list:
     specs.append({'kind': 'bytes', 'chunks': 'sf', 'old': False, 'subdir': True})
     specs.append({'kind': 'bytes', 'chunks': 'sf', 'old': True, 'stale': True})
     specs.append({'kind': 'bytes', 'chunks': 's', 'old': True, 'stale': True, 'raise_at': 1, 'raise_kind': 'ValueError'})
+    specs.append({'kind': 'bytes', 'chunks': 'sf', 'old': True, 'readonly': True})
+    specs.append({'kind': 'bytes', 'chunks': 's', 'old': True, 'readonly': True, 'raise_at': 1, 'raise_kind': 'ValueError'})
     specs.append({'kind': 'twice', 'chunks': 'sf', 'old': True})
     specs.append({'kind': 'abandon', 'chunks': 'sf', 'old': True})
     specs.append({'kind': 'abandon', 'chunks': 's', 'old': False, 'flush_abandoned': True})
@@ -540,7 +544,7 @@ def run(ctx: core.Ctx) -> None:
     st_specs = scenario_list(ctx.quick)
     if ctx.quick:
         st_specs = [s for s in st_specs if s.get('chunks') in ('sf', 'sfs', 'L') and s['kind'] != 'bsp'][:8] + \
-                   [s for s in st_specs if s['kind'] in ('twice', 'text', 'abandon')][:3]
+                   [s for s in st_specs if s['kind'] in ('twice', 'text', 'abandon')][:3] + [s for s in st_specs if s.get('readonly')][:1]
     import shutil as _sh
     if _sh.which('strace'):
         shards += [('strace', s) for s in st_specs]
@@ -555,7 +559,7 @@ def run(ctx: core.Ctx) -> None:
     ctx.assumptions.append('file-system operations are intercepted at io.open / os.mkdir / os.replace / os.unlink and on the returned file '
                            'object (write, seek, flush, close); an operation the writer performed through another route would be unseen')
     ctx.rule = (f'{len(shards)} scenarios: bytes/text writers with bodies of 0-3 chunks from (0, 10, 8193, 100096 bytes), destination '
-                f'previously present/absent, missing parent directories, a stale tmp_1, a writer object used twice, a cycle entered and abandoned before the same writer completes another, the body raising '
+                f'previously present/absent, missing parent directories, a stale tmp_1, a read-only destination file, a writer object used twice, a cycle entered and abandoned before the same writer completes another, the body raising '
                 f'ValueError/KeyboardInterrupt at every write index, and BSP.save of the sample map; for each: a directory snapshot '
                 f'after EVERY intercepted operation (crash points), and ONE injected OSError (ENOSPC, EACCES, EIO; EEXIST at open; ENOENT '
                 f'at unlink) at EVERY operation; plus every interleaving of two writers (both succeed / either fails / stale temp / same '
